@@ -1,0 +1,42 @@
+//go:build verif
+
+// Package verifhook re-exports internal packages for the external verification harness (build tag verif).
+package verifhook
+
+import (
+	"context"
+	"io"
+
+	"github.com/regclient/regclient/internal/limitread"
+	"github.com/regclient/regclient/internal/pqueue"
+	"github.com/regclient/regclient/internal/reqmeta"
+)
+
+type (
+	Data  = reqmeta.Data
+	Queue = pqueue.Queue[reqmeta.Data]
+)
+
+// NewQueue creates a throttle with the default (oldest first) or the size-aware priority function.
+func NewQueue(max int, sizeAware bool) *Queue {
+	o := pqueue.Opts[reqmeta.Data]{Max: max}
+	if sizeAware {
+		o.Next = reqmeta.DataNext
+	}
+	return pqueue.New(o)
+}
+
+// NewQueueNext creates a throttle with an arbitrary priority function.
+func NewQueueNext(max int, next func(queued, active []*Data) int) *Queue {
+	return pqueue.New(pqueue.Opts[reqmeta.Data]{Max: max, Next: next})
+}
+
+func AcquireMulti(ctx context.Context, e Data, qs ...*Queue) (context.Context, func(), error) {
+	return pqueue.AcquireMulti(ctx, e, qs...)
+}
+
+func DataNext(queued, active []*Data) int { return reqmeta.DataNext(queued, active) }
+
+func NewLimitRead(r io.Reader, limit int64) io.Reader {
+	return &limitread.LimitRead{Reader: r, Limit: limit}
+}
